@@ -14,6 +14,8 @@
 //	clock <ms>                               (virtual clock := case start - 10000 + ms, 0 <= ms <= 20000; may step backwards)
 //	when <id> ok|err                         (entry.WhenExit: a handler returning nil / an error; the gauge comes back all the same)
 //	pexit <id>                               (WhenExit handler that panics, then Exit)
+//	idmode pos|same|empty|mixed              (how Rule.ID is filled by the following loads; rules are identified by object, never by ID)
+//	resource names: any token; "~" stands for a space
 //	trace <id>                               (api.TraceError on the entry, live or exited)
 //	dexit <id>                               (Exit called by TWO goroutines that meet inside the completion path, see rdv)
 //	conc <res>                               => gauge
@@ -141,6 +143,8 @@ type Interp struct {
 	clk   *vh.Clock
 	now   uint64
 	ents  map[uint64]*handle
+	idmode  string
+	pos     map[*isolation.Rule]int       // position of every rule object in the load call that created it
 	held    map[string][]*isolation.Rule // the valid rule objects the module holds, per resource (for poke)
 	scratch [2][]*isolation.Rule         // the caller-owned slices reused by sload [0] / sloadres [1]
 	fresh int
@@ -181,6 +185,8 @@ func (it *Interp) Reset() {
 	it.ents = map[uint64]*handle{}
 	it.fresh = 0
 	it.held = map[string][]*isolation.Rule{}
+	it.pos = map[*isolation.Rule]int{}
+	it.idmode = "pos"
 	_ = isolation.ClearRules()
 	_ = flow.ClearRules()
 	stat.ResetResourceNodeMap()
@@ -242,18 +248,65 @@ func (it *Interp) live(id uint64) bool {
 }
 
 // blockParts returns (rule-index, triggered-value) of an isolation block ("other:<type>", "?" for anything else).
-func blockParts(b *base.BlockError) (string, string) {
+func (it *Interp) blockParts(b *base.BlockError) (string, string) {
 	if b.BlockType() != base.BlockTypeIsolation {
 		return "other:" + b.BlockType().String(), "?"
 	}
 	idx := "?"
 	if r, ok := b.TriggeredRule().(*isolation.Rule); ok && r != nil {
-		idx = r.ID
+		// the rule is identified by the object (its position in the load that created it), not by Rule.ID: ids may be shared or empty
+		if p, ok := it.pos[r]; ok {
+			idx = strconv.Itoa(p)
+		} else {
+			idx = "id=" + r.ID
+		}
 	}
 	return idx, fmt.Sprint(b.TriggeredValue())
 }
 
+// renumber: a load reported "unchanged" keeps the module's old, content-equal rule objects; they now stand for the rules of this
+// load, so they take over the positions of the new list (with ids that do not encode the position the two lists can differ in it).
+func (it *Interp) renumber(rules []*isolation.Rule) {
+	k := map[string]int{}
+	for _, r := range rules {
+		if r.Threshold == 0 {
+			continue
+		}
+		if hs := it.held[r.Resource]; k[r.Resource] < len(hs) {
+			it.pos[hs[k[r.Resource]]] = it.pos[r]
+		}
+		k[r.Resource]++
+	}
+}
+
+// mkRule builds the i-th rule of a load call; Rule.ID follows the id mode (the harness identifies rules by object, not by ID).
+func (it *Interp) mkRule(i int, res string, thr uint32) *isolation.Rule {
+	id := strconv.Itoa(i)
+	switch it.idmode {
+	case "same":
+		id = "pool-limit"
+	case "empty":
+		id = ""
+	case "mixed":
+		switch i % 3 {
+		case 0:
+			id = "pool-limit"
+		case 1:
+			id = ""
+		}
+	}
+	r := &isolation.Rule{ID: id, Resource: res, MetricType: isolation.Concurrency, Threshold: thr}
+	it.pos[r] = i
+	return r
+}
+
 func (it *Interp) Step(t []string, op string) string {
+	// "~" in a token stands for a space (resource names with spaces; tokens themselves cannot contain one)
+	for i := 1; i < len(t); i++ {
+		if strings.Contains(t[i], "~") {
+			t[i] = strings.ReplaceAll(t[i], "~", " ")
+		}
+	}
 	switch t[0] {
 	case "load", "sload":
 		// sload: the same call through ONE caller-owned slice reused by every s-load, whose elements are overwritten afterwards
@@ -263,7 +316,7 @@ func (it *Interp) Step(t []string, op string) string {
 			if k <= 0 {
 				panic("bad rule " + a)
 			}
-			rules = append(rules, &isolation.Rule{ID: strconv.Itoa(i), Resource: a[:k], MetricType: isolation.Concurrency, Threshold: u32(a[k+1:])})
+			rules = append(rules, it.mkRule(i, a[:k], u32(a[k+1:])))
 		}
 		changed, err := isolation.LoadRules(rules)
 		if err != nil {
@@ -276,6 +329,8 @@ func (it *Interp) Step(t []string, op string) string {
 					it.held[r.Resource] = append(it.held[r.Resource], r)
 				}
 			}
+		} else {
+			it.renumber(rules)
 		}
 		it.scribble(t[0] == "sload", rules)
 		return ""
@@ -290,7 +345,7 @@ func (it *Interp) Step(t []string, op string) string {
 		}
 		rules := it.buf(t[0] == "sloadres", 1, len(t)-2)
 		for i, a := range t[2:] {
-			rules = append(rules, &isolation.Rule{ID: strconv.Itoa(i), Resource: res, MetricType: isolation.Concurrency, Threshold: u32(a)})
+			rules = append(rules, it.mkRule(i, res, u32(a)))
 		}
 		changed, err := isolation.LoadRulesOfResource(res, rules)
 		if err != nil {
@@ -303,40 +358,52 @@ func (it *Interp) Step(t []string, op string) string {
 					it.held[res] = append(it.held[res], r)
 				}
 			}
+		} else {
+			it.renumber(rules)
 		}
 		it.scribble(t[0] == "sloadres", rules)
 		return ""
 	case "poke":
 		// the caller edits the threshold of a rule object it loaded earlier (only valid rules, only to non-zero values)
 		for _, r := range it.held[t[1]] {
-			if r.ID == t[2] {
+			if p, ok := it.pos[r]; ok && strconv.Itoa(p) == t[2] {
 				r.Threshold = u32(t[3])
 			}
 		}
 		return ""
 	case "rules":
+		// GetRules* return copies: the k-th rule reported for a resource is matched with the k-th valid rule object loaded for it
+		name := func(res string, k int, thr uint32) string {
+			if hs := it.held[res]; k < len(hs) && hs[k].Threshold == thr {
+				return strconv.Itoa(it.pos[hs[k]])
+			}
+			return "?"
+		}
 		if len(t) > 1 {
 			rs := isolation.GetRulesOfResource(t[1])
 			out := make([]string, len(rs))
 			for i, r := range rs {
-				out[i] = fmt.Sprintf("%s:%d", r.ID, r.Threshold)
+				out[i] = fmt.Sprintf("%s:%d", name(t[1], i, r.Threshold), r.Threshold)
 			}
 			return vh.List(out)
 		}
 		rs := isolation.GetRules()
-		sort.SliceStable(rs, func(i, j int) bool {
-			if rs[i].Resource != rs[j].Resource {
-				return rs[i].Resource < rs[j].Resource
-			}
-			a, _ := strconv.Atoi(rs[i].ID)
-			b, _ := strconv.Atoi(rs[j].ID)
-			return a < b
-		})
+		enc := func(n string) string { return strings.ReplaceAll(n, " ", "~") }
+		sort.SliceStable(rs, func(i, j int) bool { return enc(rs[i].Resource) < enc(rs[j].Resource) })
 		out := make([]string, len(rs))
+		k := 0
 		for i, r := range rs {
-			out[i] = fmt.Sprintf("%s:%s:%d", r.Resource, r.ID, r.Threshold)
+			if i > 0 && rs[i-1].Resource != r.Resource {
+				k = 0
+			}
+			out[i] = fmt.Sprintf("%s:%s:%d", strings.ReplaceAll(r.Resource, " ", "~"), name(r.Resource, k, r.Threshold), r.Threshold)
+			k++
 		}
 		return vh.List(out)
+	case "idmode":
+		// how Rule.ID is filled by the following loads: pos (the position), same (one shared non-empty id), empty, mixed
+		it.idmode = t[1]
+		return ""
 	case "clock":
 		// offset from the case start (the case starts at offset 10000); may step backwards
 		it.clk.SetMs(it.now - 10_000 + vh.U(t[1]))
@@ -363,7 +430,7 @@ func (it *Interp) Step(t []string, op string) string {
 		}
 		e, b := sentinel.Entry(t[2], opts...)
 		if b != nil {
-			idx, tv := blockParts(b)
+			idx, tv := it.blockParts(b)
 			return "block iso " + idx + " " + tv
 		}
 		it.ents[id] = &handle{e: e}
@@ -517,7 +584,7 @@ func (it *Interp) sched(id0 uint64, res string, bs, sch []string) string {
 			out[i] = "-"
 			close(t.grant)
 		case t.state == 2 && t.b != nil:
-			idx, tv := blockParts(t.b)
+			idx, tv := it.blockParts(t.b)
 			out[i] = "b" + idx + ":" + tv
 		case t.state == 2:
 			out[i] = "p"
